@@ -167,7 +167,7 @@ def run_suite(name: str, seed: int, n_hist: int, struct: bool, oracles=(), max_o
                 res.failures.append({"signature": fails[0]["signature"], "what": fails[0]["what"],
                                      "case": {"suite": name, "hist": small, "detail": fails[0].get("detail")}})
                 break
-            if dis is not None:
+            if dis is not None and res.disagreement is None:
                 def bad2(c):
                     d2 = Driver()
                     try:
@@ -182,7 +182,7 @@ def run_suite(name: str, seed: int, n_hist: int, struct: bool, oracles=(), max_o
                 finally:
                     d2.close()
                 res.disagreement = {"hist": small, **(dis2 or dis)}
-                break
+                # keep going: the remaining histories are still searched by the oracles for a failing input
     finally:
         d.close()
     res.counters = cnt
